@@ -20,7 +20,8 @@ func init() {
 	intrinsics = map[string]intrinsic{
 		"fmt.Errorf":   freshError,
 		"fmt.Sprintf":  sprintf,
-		"encoding/binary.Read": binaryRead,
+		"encoding/binary.Read":  binaryRead,
+		"encoding/binary.Write": binaryWrite,
 		"errors.New":   freshError,
 		"bytes.Equal":  bytesEqual,
 		"google.golang.org/protobuf/proto.Unmarshal": protoUnmarshal,
@@ -500,5 +501,82 @@ func binaryRead(f *Frame, in ssa.Instruction, args []SV, cc *ssa.CallCommon, st 
 	c.assume(g, c.wf(pt.Elem(), nv, st.wm()))
 	f.store(st, *d.DynV, pt.Elem(), nv, g, f.where(in))
 	f.x.syncViews(st)
+	return res, true
+}
+
+// binaryWrite models encoding/binary.Write(w, order, v) for a fixed-size integer v and a known byte order: on
+// success exactly sizeof(v) bytes, the encoding of v, are appended to the writer's ghost log
+// (wrLog[w][wrLen[w]..]) and wrLen[w] grows by that size; a *bytes.Buffer never fails; any other writer may fail,
+// after which its log is unknown beyond what it held before.
+func binaryWrite(f *Frame, in ssa.Instruction, args []SV, cc *ssa.CallCommon, st *State, g string) (SV, bool) {
+	c := f.c()
+	w, order, d := args[0], args[1], args[2]
+	if d.Dyn == nil || d.DynV == nil || d.DynV.T == "" || order.Dyn == nil {
+		return SV{}, false
+	}
+	bitsN, _, isInt := intInfo(d.Dyn)
+	if !isInt || bitsN%8 != 0 {
+		return SV{}, false
+	}
+	big := false
+	switch on := order.Dyn.String(); {
+	case strings.HasSuffix(on, "binary.littleEndian"):
+	case strings.HasSuffix(on, "binary.bigEndian"):
+		big = true
+	default:
+		return SV{}, false
+	}
+	n := bitsN / 8
+	f.x.syncViews(st)
+	f.x.usedStub["model: encoding/binary.Write of a fixed-size integer appends exactly its encoding to the writer's log on success"] = true
+	v := d.DynV.T
+	if _, signed, _ := intInfo(d.Dyn); signed {
+		v = fmt.Sprintf("(ite (< %s 0) (+ %s %s) %s)", v, v, pow2s(bitsN), v)
+	}
+	wl := c.ghostVar("wrLen", "(Array Int Int)")
+	wg := c.ghostVar("wrLog", "(Array Int (Array Int Int))")
+	wref := "(i.ref " + w.T + ")"
+	if w.Dyn != nil && w.DynV != nil && w.DynV.T != "" {
+		wref = w.DynV.T
+	}
+	c.oblige("nilinvoke", f.sweepTags(), g, fmt.Sprintf("(not (= (i.tid %s) 0))", w.T), f.where(in), "binary.Write to a nil io.Writer")
+	L := sel(st.get(wl), wref)
+	arr := sel(st.get(wg), wref)
+	var sum []string
+	for k := 0; k < n; k++ {
+		sh := k
+		if big {
+			sh = n - 1 - k
+		}
+		bt := c.freshConst("wbyte", "Int")
+		c.assert(fmt.Sprintf("(and (<= 0 %s) (<= %s 255))", bt, bt))
+		dm := fmt.Sprintf("(mod (div %s %s) 256)", v, pow2s(8*sh))
+		if sh == 0 {
+			dm = fmt.Sprintf("(mod %s 256)", v)
+		}
+		c.assert(eq(bt, dm))
+		sum = append(sum, fmt.Sprintf("(* %s %s)", pow2s(8*sh), bt))
+		arr = sto(arr, c.simplify(fmt.Sprintf("(+ %s %d)", L, k)), bt)
+	}
+	c.assert(fmt.Sprintf("(=> (and (<= 0 %s) (< %s %s)) (= %s (+ %s)))", v, v, pow2s(8*n), v, strings.Join(sum, " ")))
+	isBuf := w.Dyn != nil && strings.HasSuffix(w.Dyn.String(), "bytes.Buffer")
+	f.x.chargeAllocBytes(st, g, "64")
+	if isBuf {
+		rd := c.ghostVar("rdLeft", "(Array Int Int)")
+		st.set(rd, sto(st.get(rd), wref, fmt.Sprintf("(+ %s %d)", sel(st.get(rd), wref), n)))
+		st.set(wl, sto(st.get(wl), wref, fmt.Sprintf("(+ %s %d)", L, n)))
+		st.set(wg, sto(st.get(wg), wref, arr))
+		return tv("(mk-iface 0 0)"), true
+	}
+	res := freshErrorOrNil(f, in, st, g)
+	okc := "(= (i.tid " + res.T + ") 0)"
+	badLen := c.freshConst("wrlen", "Int")
+	c.assert(fmt.Sprintf("(and (>= %s %s) (<= %s (+ %s %d)))", badLen, L, badLen, L, n))
+	badArr := c.freshConst("wrlog", "(Array Int Int)")
+	c.quant = true
+	j := qsym(c.freshName("j"))
+	c.assert(fmt.Sprintf("(forall ((%[1]s Int)) (! (=> (and (<= 0 %[1]s) (< %[1]s %[2]s)) (= (select %[3]s %[1]s) (select %[4]s %[1]s))) :pattern ((select %[3]s %[1]s))))", j, L, badArr, sel(st.get(wg), wref)))
+	st.set(wl, sto(st.get(wl), wref, ite(okc, fmt.Sprintf("(+ %s %d)", L, n), badLen)))
+	st.set(wg, sto(st.get(wg), wref, ite(okc, arr, badArr)))
 	return res, true
 }
